@@ -221,3 +221,46 @@ def run(chk):
                     raise
                 return "samplers accept the step's keys and counts"
             chk.run("C17.R1", f"{RAR}:_rar_step_init.rar_step_true (candidate sampling)", cfg, go, construct=f"candidate sampling[{kind},dim {d}]")
+
+    # ---------------- R5 active set after a step: the previously active entries stay active and exactly the written slice of the
+    # store's own family is added (time counted with the time start count, space with the space start count)
+    chk.rule("C17.R5", "after a step the active entries of each mask are the first start + (J + 1) * selected of ITS OWN family "
+                       "(previously active points stay active; never-written slots stay inactive)", floor=3)
+    from ._rar_common import check_mask_activation
+    for kind in ('ode', 'statio', 'nonstatio'):
+        def go_active(kind=kind):
+            s = setup(kind)
+            new = s.step_true()
+            msgs = []
+            if kind in ('ode', 'nonstatio'):
+                msgs.append(check_mask_activation(new.fields['p_times'], Sym('p_times'), K('nt_start'), SEL_T, K('J'), "p_times"))
+            if kind in ('statio', 'nonstatio'):
+                msgs.append(check_mask_activation(new.fields['p_omega'], Sym('p_omega'), K('n_start'), SEL_X, K('J'), "p_omega"))
+            return "; ".join(msgs)
+        chk.run("C17.R5", f"{RAR}:_rar_step_init.rar_step_true", {"generator": kind}, go_active, construct=f"active set after the step[{kind}]")
+
+    # ---------------- R6 the step functions are built with the generator's own sizes, per family
+    chk.rule("C17.R6", "init_rar builds the step with (candidate, selected) sizes of the right family (time sizes for the time store, "
+                       "space sizes for the space store)", floor=3)
+    for kind in ('ode', 'statio', 'nonstatio'):
+        def go_sizes(kind=kind):
+            s = setup(kind)
+            seen = {}
+            orig = s.rar.env.local['_rar_step_init']
+            names = [a.arg for a in orig.node.args.args][:2] if getattr(orig, 'node', None) is not None else ['a', 'b']
+
+            def stub(*a, names=names, **k):
+                vals = list(a) + [k[n] for n in names[len(a):]]
+                seen.update(a=vals[0], b=vals[1])
+                return (lambda o: o[2], lambda o: o[2])
+            s.rar.env.local['_rar_step_init'] = stub
+            try:
+                s.fn('init_rar')(freeze(s.data))
+            finally:
+                s.rar.env.local['_rar_step_init'] = orig
+            exp = {'ode': (S_T, SEL_T), 'statio': (S_X, SEL_X), 'nonstatio': ((S_T, S_X), (SEL_T, SEL_X))}[kind]
+            got = (seen.get('a'), seen.get('b'))
+            if fz(got) != fz(exp):
+                raise Violation(f"init_rar sizes[{kind}]", str(got), str(exp))
+            return "candidate / selected sizes of the right family"
+        chk.run("C17.R6", f"{RAR}:init_rar", {"generator": kind}, go_sizes, construct=f"init_rar sizes[{kind}]")
